@@ -755,10 +755,10 @@ peg::parser! {
                 BraceExpressionMember::CharSequence { start, end, increment: increment.unwrap_or(1) }
             }
 
-        rule number() -> i64 = sign:number_sign()? n:$(['0'..='9']+) {
+        rule number() -> i64 = sign:number_sign()? n:$(['0'..='9']+) {?
             let sign = sign.unwrap_or(1);
-            let num: i64 = n.parse().unwrap();
-            num * sign
+            let num: i64 = n.parse().or(Err("i64"))?;
+            Ok(num * sign)
         }
 
         rule number_sign() -> i64 =
@@ -958,9 +958,9 @@ peg::parser! {
         rule tilde_expression() -> TildeExpr =
             &tilde_terminator() { TildeExpr::Home } /
             "+" &tilde_terminator() { TildeExpr::WorkingDir } /
-            plus:("+"?) n:$(['0'..='9']*) &tilde_terminator() { TildeExpr::NthDirFromTopOfDirStack { n: n.parse().unwrap(), plus_used: plus.is_some() } } /
+            plus:("+"?) n:$(['0'..='9']*) &tilde_terminator() {? Ok(TildeExpr::NthDirFromTopOfDirStack { n: n.parse().or(Err("usize"))?, plus_used: plus.is_some() }) } /
             "-" &tilde_terminator() { TildeExpr::OldWorkingDir } /
-            "-" n:$(['0'..='9']*) &tilde_terminator() { TildeExpr::NthDirFromBottomOfDirStack { n: n.parse().unwrap() } } /
+            "-" n:$(['0'..='9']*) &tilde_terminator() {? Ok(TildeExpr::NthDirFromBottomOfDirStack { n: n.parse().or(Err("usize"))? }) } /
             user:$(portable_filename_char()*) &tilde_terminator() { TildeExpr::UserHome(user.to_owned()) }
 
         rule tilde_terminator() = ['/' | ':' | ';' | '}'] / ![_]
